@@ -66,6 +66,7 @@ impl World {
         };
         let mut payload = Vec::new();
         let snap_before = self.dut.snapshot();
+        let mut pre_downlinks: Vec<(u8, Vec<u8>)> = Vec::new();
         let result = match op {
             Op::Join(txn) => {
                 self.env.borrow_mut().begin_op(idx, Some(txn), None, "join(OTAA)".into());
@@ -120,6 +121,8 @@ impl World {
             Op::SaveRestore => {
                 self.env.borrow_mut().begin_op(idx, None, None, "save session / power loss / restore into a fresh device".into());
                 let (dr, adr) = (self.dut.get_dr(), self.dut.get_adr());
+                // whatever the application has not collected yet is collected before the power goes
+                pre_downlinks = self.dut.take_downlinks();
                 let before = self.dut.snapshot().and_then(|s| s.session);
                 match self.dut.session_json() {
                     Some(json) => match self.dut.restore_from_json(&json) {
@@ -176,7 +179,12 @@ impl World {
                 OpResult::Done
             }
         };
-        let downlinks = if result.is_panic() { vec![] } else { self.dut.take_downlinks() };
+        // a lazy application collects its downlinks only after every fourth operation
+        let lazy_skip = self.env.borrow().cfg.lazy_app && idx % 4 != 3 && !matches!(op, Op::SaveRestore | Op::RestoreMutated(_) | Op::Misuse(_));
+        let mut downlinks = pre_downlinks;
+        if !result.is_panic() && !lazy_skip {
+            downlinks.extend(self.dut.take_downlinks());
+        }
         let (fcnt_up_after, fcnt_down_after, dr_after, adr_after) =
             if result.is_panic() { (None, None, 0, false) } else { (self.dut.fcnt_up(), self.dut.fcnt_down(), self.dut.get_dr(), self.dut.get_adr()) };
         let snap_after = if result.is_panic() { None } else { self.dut.snapshot() };
